@@ -137,6 +137,9 @@ func cmdClusterDuties(args []string) int {
 			}
 			var d1, d2 duty
 			kind := []string{"same-target", "same-target-other-source", "surrounding", "surrounded", "same-slot"}[rng.Intn(5)]
+			if round == 0 {
+				kind = "same-slot-0" // the very first slot: a stored 0 is a watermark, not "nothing signed"
+			}
 			switch kind {
 			case "same-target":
 				d1, d2 = mkAtt(epoch-1, epoch, 0x11), mkAtt(epoch-1, epoch, 0x22)
@@ -148,6 +151,8 @@ func cmdClusterDuties(args []string) int {
 				d1, d2 = mkAtt(epoch-4, epoch, 0x11), mkAtt(epoch-3, epoch-2, 0x22)
 			case "same-slot":
 				d1, d2 = mkProp(epoch*32, 0x11), mkProp(epoch*32, 0x22)
+			case "same-slot-0":
+				d1, d2 = mkProp(0, 0x11), mkProp(0, 0x22)
 			}
 			stats["pair."+kind]++
 			// routing: each duty to a subset (often everyone), with repeats, shuffled together
